@@ -69,7 +69,16 @@ def try_(name, ids):
             p = subprocess.run([os.path.join(VERIF, "harness", "vcheck"), pid, "--tier", "quick"], cwd=VERIF, env=env,
                                stdout=subprocess.PIPE, stderr=subprocess.STDOUT, text=True, timeout=3600)
             lines = [l for l in p.stdout.splitlines() if l.startswith(("VIOLATION", "KNOWN-FINDING", "OK "))]
-            res[pid] = {"rc": p.returncode, "lines": lines, "wall_s": round(time.time() - t0, 1)}
+            keys = []
+            for l in lines:
+                if l.startswith("VIOLATION") and "replay=" in l:
+                    rp = os.path.join(VERIF, l.split("replay=")[1].split()[0])
+                    try:
+                        d = json.load(open(rp))
+                        keys.append(d.get("key") or "; ".join(x["name"] for x in d.get("no_longer_checks", []))[:200])
+                    except Exception:
+                        pass
+            res[pid] = {"rc": p.returncode, "lines": lines, "keys": keys, "wall_s": round(time.time() - t0, 1)}
             print(pid, p.returncode, lines[:3], "%.0fs" % (time.time() - t0))
             if p.returncode not in (0, 1):
                 print(p.stdout[-2000:])
